@@ -497,6 +497,9 @@ func modelBody(c modelCase) error {
 func history(ops []op) string {
 	var b strings.Builder
 	for i, o := range ops {
+		if o.K == "nop" {
+			continue
+		}
 		fmt.Fprintf(&b, "  %d: %s\n", i, o)
 	}
 	return b.String()
@@ -514,11 +517,12 @@ func attrKey(k string) string {
 // ------------------------------------------------------------------ generator
 
 var kinds = func() []string {
-	w := map[string]int{"new": 5, "copy": 8, "rc_in": 6, "rc_cp": 8, "sub": 5, "subc": 4, "setseq": 4, "append": 5,
+	// "nop" comes first: shrinking a kind towards index 0 deletes the operation
+	w := map[string]int{"nop": 1, "new": 5, "copy": 8, "rc_in": 6, "rc_cp": 8, "sub": 5, "subc": 4, "setseq": 4, "append": 5,
 		"setqual": 6, "clearqual": 1, "setattr": 3, "delattr": 1, "setmism": 2, "nested": 3, "setfeat": 2,
 		"join": 3, "recycle": 8, "churn": 5, "release": 3, "m_rcstale": 3, "m_pool": 3}
 	var ks []string
-	for _, k := range []string{"new", "copy", "rc_in", "rc_cp", "sub", "subc", "setseq", "append", "setqual", "clearqual", "setattr",
+	for _, k := range []string{"nop", "new", "copy", "rc_in", "rc_cp", "sub", "subc", "setseq", "append", "setqual", "clearqual", "setattr",
 		"delattr", "setmism", "nested", "setfeat", "join", "recycle", "churn", "release", "m_rcstale", "m_pool"} {
 		for i := 0; i < w[k]; i++ {
 			ks = append(ks, k)
@@ -585,6 +589,8 @@ func genModel(t *rapid.T, maxOps int) (modelCase, *tracker) {
 			k = "recycle"
 		}
 		switch k {
+		case "nop":
+			push(op{K: "nop"})
 		case "new":
 			s := genSpec(t, genLen(t, "n"), -1)
 			s.Attr = genAttr(t, "attr")
